@@ -5,7 +5,7 @@
     dual-yield nonce, holders and supply, the net staking value registered in the staking farm.
     It also evaluates the interface laws L1-L6 on the real answers.
     Returns [] or [index; field; model value; implementation value] for the first difference.
-    Field codes: 1 Ok/Err, 2 outputs, 40 registered staking value, 51..56 interface law violated by a
+    Field codes: 1 Ok/Err, 2 outputs, 40 registered staking value, 41 liquidity amount priced, 51..56 interface law violated by a
     real answer, 60 number of dual-yield nonces, 61..64 attribute fields,
     1000+k / 2000+k proxy balance of LP-farm / staking-farm nonce k, 3000+t fungible token t,
     4000 supply, 5000 holder. *)
@@ -20,7 +20,8 @@ Record mobs := mkMObs {
   o_attrs : list (Z * dattr);    (* real attributes of every dual-yield nonce created so far *)
   o_hold : list (Z * Z);         (* real dual-yield balances: nonce*1000 + user *)
   o_sup : list (Z * Z);          (* real outstanding amount per dual-yield nonce *)
-  o_reg : Z                      (* real change of the staking farm's farm-token supply *)
+  o_reg : Z;                     (* real change of the staking farm's farm-token supply *)
+  o_liq : Z                      (* LP amount whose safe price the harness read from the pair's view before the call (-1: none) *)
 }.
 
 Fixpoint list_eqb (a b : list Z) : bool :=
@@ -108,29 +109,61 @@ Definition law_check (s : st) (op : mop) : list Z :=
   | _ => []
   end.
 
+(** A failed real transaction carries no answers.  The model is then run with "a callee rejects"
+    forced: [Err EExt] means every guard of the proxy itself passed, which is consistent with the real
+    failure only if the harness predicted a rejection from the pre-call views ([e_fail] of the
+    operation); any other error class is a guard of the proxy. *)
+Definition op_fail (op : mop) : bool :=
+  match op with
+  | Stake _ _ _ e => es_fail e
+  | Claim _ _ _ e => ec_fail e
+  | Unstake _ _ _ _ _ e => eu_fail e
+  | Xfer _ _ _ _ => false
+  end.
+
+Definition force_fail (op : mop) : mop :=
+  match op with
+  | Stake c oc ps e => Stake c oc ps (mkES true (es_sp e) (es_sfn e) (es_sfa e) (es_bs e) (es_lpn e) (es_lpa e) (es_bl e))
+  | Claim c oc ps e => Claim c oc ps (mkEC true (ec_sp e) (ec_lpn e) (ec_lpa e) (ec_rl e) (ec_sfn e) (ec_sfa e) (ec_rs e))
+  | Unstake c oc ps m1 m2 e => Unstake c oc ps m1 m2 (mkEU true (eu_lp e) (eu_rl e) (eu_rm e) (eu_ubn e) (eu_uba e) (eu_rs e))
+  | Xfer _ _ _ _ => op
+  end.
+
+(** the liquidity amount the model asks the pair to price (-1: no price query) *)
+Fixpoint priced (cs : list call) : Z :=
+  match cs with
+  | [] => -1
+  | CSafePrice liq :: _ => liq
+  | _ :: t => priced t
+  end.
+
 Fixpoint check_trace (s : st) (i : Z) (tr : list (mop * mobs)) : list Z :=
   match tr with
   | [] => []
   | (op, o) :: t =>
-      match step s op with
-      | Ok (s', outs, calls) =>
-          if negb (o_ok o) then [i; 1; 1; 0]
-          else if negb (env_nonneg op) then [i; 50; 1; 0]
-          else if negb (list_eqb outs (o_outs o)) then [i; 2; hd (-1) outs; hd (-1) (o_outs o)]
-          else match law_check s op with
-               | code :: rest => i :: code :: rest
-               | [] =>
-                 if negb (registered calls =? o_reg o) then [i; 40; registered calls; o_reg o]
-                 else match cmp_state i s' o with
-                      | [] => check_trace s' (i + 1) t
-                      | d => d
-                      end
-               end
-      | Err _ =>
-          if o_ok o then [i; 1; 0; 1]
-          else match cmp_state i s o with
-               | [] => check_trace s (i + 1) t
-               | d => d
-               end
-      end
+      if o_ok o then
+        match step s op with
+        | Ok (s', outs, calls) =>
+            if negb (env_nonneg op) then [i; 50; 1; 0]
+            else if negb (list_eqb outs (o_outs o)) then [i; 2; hd (-1) outs; hd (-1) (o_outs o)]
+            else match law_check s op with
+                 | code :: rest => i :: code :: rest
+                 | [] =>
+                   if negb (registered calls =? o_reg o) then [i; 40; registered calls; o_reg o]
+                   else if negb (priced calls =? o_liq o) then [i; 41; priced calls; o_liq o]
+                   else match cmp_state i s' o with
+                        | [] => check_trace s' (i + 1) t
+                        | d => d
+                        end
+                 end
+        | Err _ => [i; 1; 0; 1]
+        end
+      else
+        match step s (force_fail op) with
+        | Ok _ => [i; 1; 1; 0]
+        | Err EExt => if op_fail op then
+                        match cmp_state i s o with [] => check_trace s (i + 1) t | d => d end
+                      else [i; 1; 1; 0]
+        | Err _ => match cmp_state i s o with [] => check_trace s (i + 1) t | d => d end
+        end
   end.
